@@ -160,7 +160,11 @@ func Build(base string, sim *Sim) (*Repo, error) {
 				return fail(err)
 			}
 		}
-		if _, err := r.git(env, "commit", "-q", "--allow-empty", "--allow-empty-message", "--no-verify", "-m", c.Commit.Subject); err != nil {
+		commitArgs := []string{"commit", "-q", "--allow-empty", "--allow-empty-message", "--no-verify", "-m", c.Commit.Subject}
+		if c.Commit.Body != "" && c.Commit.Subject != "" {
+			commitArgs = append(commitArgs, "-m", c.Commit.Body)
+		}
+		if _, err := r.git(env, commitArgs...); err != nil {
 			return fail(err)
 		}
 		full, err := r.git(nil, "rev-parse", "HEAD")
